@@ -206,6 +206,14 @@ class _Life:
         # serving: a request meets a dead link, the device comes back in the bootloader (power cycle), the
         # next request's ensure_connection runs the bring-up again in this same process
         from comm.protocol import HSM2ProtocolInterrupt
+        if p.get("warmup"):
+            # the manager has been serving for a while: hundreds of ordinary requests through the same handler first
+            self.crash.point, armed0 = None, self.crash.point
+            for k in range(p["warmup"]):
+                self.serve_over_socket(proto, {"command": "version"} if k % 3 else
+                                       {"version": 5, "command": "getPubKey", "keyId": "m/44'/0'/0'/0/0"}, "wait", world,
+                                       settle=False)
+            self.crash.point = armed0
         self.crash.now = 1
         self.crash.count = {}
         req = {"version": 5, "command": "getPubKey", "keyId": "m/44'/0'/0'/0/0"}
@@ -255,7 +263,7 @@ class _Life:
         self.emit({"k": "end", "outcome": outcome, "mem_bytes": bytes(pin.get_pin()).hex()})
 
 
-def _serve_over_socket(self, proto, req, client, world):
+def _serve_over_socket(self, proto, req, client, world, settle=True):
     """One request handled by comm.server's connection handler exactly as socketserver would run it. The manager
     stops iff the handler asks the server to shut down; an exception the handler lets out is logged by socketserver
     and the manager carries on."""
@@ -299,7 +307,7 @@ def _serve_over_socket(self, proto, req, client, world):
         pass                # socketserver.BaseServer.handle_error: printed, the server goes on
     finally:
         world.on_event = prev
-    for _ in range(40):
+    for _ in range(40 if settle else 0):
         if stopped.is_set():
             break
         time.sleep(0.005)
@@ -403,6 +411,8 @@ class History:
             # how the request that repairs the link reaches the manager, and what its client does meanwhile
             import zlib
             plan["client"] = ["direct", "wait", "fin", "rst"][zlib.crc32(plan["seed"].encode()) % 4]
+            if plan["client"] != "direct" and zlib.crc32(plan["seed"].encode()) % 8 < 4:
+                plan["warmup"] = 230
         evs, crashed = run_lifetime(plan)
         j = read_file(self.journal)
         if j is not None:
